@@ -6,6 +6,7 @@ package pbft
 // skip, a handler that blocks forever, timeouts that do not grow with the round.
 
 import (
+	"bytes"
 	"time"
 
 	"github.com/dappledger/AnnChain/gemmill/types"
@@ -67,7 +68,8 @@ func VerifHarness_C12_wait_timeouts_and_round_skip() {
 	round := int64(vNondetLen("round", 0, 1))
 	w.setRound(round)
 	cs.Step = RoundStepType(vNondetLen("step", int(RoundStepPropose), int(RoundStepPrecommit)))
-	voteRound := round + int64(vNondetLen("ahead", 0, 1))
+	voteRound := round + int64(vNondetLen("ahead", 0, 2))
+	vAssume(voteRound <= 2) // the node under test would itself propose in round 3 (order 0,2,3,1)
 	typ := byte(types.VoteTypePrevote)
 	if vNondetBool("precommits") {
 		typ = types.VoteTypePrecommit
@@ -82,6 +84,9 @@ func VerifHarness_C12_wait_timeouts_and_round_skip() {
 	w.drain()
 	vReach("two-thirds-any")
 	vAssert(cs.Round == voteRound, "P2-two-thirds-any-of-a-later-round-skips-to-it")
+	// a node that skipped rounds must agree with everybody else on who proposes from here on,
+	// otherwise it rejects every legitimate proposal for the rest of the height
+	vAssert(bytes.Equal(cs.Validators.Proposer().Address, w.scheduledProposer(cs.Round)), "P2-proposer-after-round-skip-is-the-scheduled-one")
 	if typ == types.VoteTypePrevote {
 		if CompareHRS(cs.Height, voteRound, RoundStepPrevoteWait, h0, r0, s0) > 0 {
 			vAssert(cs.Step >= RoundStepPrevoteWait, "P1b-two-thirds-any-prevotes-enter-prevote-wait")
@@ -115,6 +120,7 @@ func VerifHarness_C12_nil_precommits_next_round() {
 	w.drain()
 	vReach("nil-majority")
 	vAssert(cs.Round == round+1, "P1d-nil-precommit-majority-starts-next-round")
+	vAssert(bytes.Equal(cs.Validators.Proposer().Address, w.scheduledProposer(cs.Round)), "P1d-proposer-of-next-round-is-the-scheduled-one")
 }
 
 // P3: a timeout for the current height/round/step or later is never ignored by handleTimeout
